@@ -398,8 +398,29 @@ class BlockInterp:
                     env[nm] = outer.me.ev(d)
             for nm, v in zip(names, args):
                 env[nm] = v
+            if len(args) > len(names):
+                if a.vararg is None:
+                    raise Unsupported(f"too many positional arguments for {fdef.name}")
+                env[a.vararg.arg] = tuple(args[len(names):])
+            elif a.vararg is not None:
+                env[a.vararg.arg] = ()
+            for kw, d in zip(a.kwonlyargs, a.kw_defaults):
+                if d is not None:
+                    env[kw.arg] = outer.me.ev(d)
+            known = set(names) | {x.arg for x in a.kwonlyargs}
+            extra = {}
             for k, v in kwargs.items():
-                env[k] = v
+                if k in known:
+                    env[k] = v
+                elif a.kwarg is not None:
+                    extra[k] = v
+                else:
+                    raise Unsupported(f"unexpected keyword argument {k} for {fdef.name}")
+            if a.kwarg is not None:
+                env[a.kwarg.arg] = extra
+            missing = [nm for i, nm in enumerate(names) if i >= len(args) and nm not in kwargs and defaults[i] is None]
+            if missing:
+                raise Unsupported(f"missing argument(s) {missing} for {fdef.name}")
             sub = BlockInterp(env, on_call=outer.on_call, on_raise=outer.on_raise, max_steps=outer.max_steps)
             sub.me.env[fdef.name] = closure
             r = sub.run(fdef.body)
